@@ -49,6 +49,7 @@ func isPoolCall(info *types.Info, call *ast.CallExpr, method string) bool {
 }
 
 func runC10(c *an.Ctx) {
+	memoRule(c, "C10.memo")
 	p := c.P
 	info := p.Jet.TypesInfo
 	exec := c.Fn("C10.reset", "(*Template).Execute")
